@@ -1,3 +1,268 @@
+/-
+C11 - property theorems: flatten / unflatten / reshape group dimensions losslessly.
+Row-major index arithmetic (ravel / unravel) and the value equation of grouping.
+-/
 import DimModel.Lib.Reshape
 namespace DimModel
+open Lib
+
+/-! ### row-major index arithmetic -/
+
+theorem prod_nil : prod [] = 1 := rfl
+theorem prod_cons (n : Nat) (s : List Nat) : prod (n :: s) = n * prod s := rfl
+
+/-- `i < n`, `r < p` gives `i * p + r < n * p` -/
+theorem mul_add_lt {i n r p : Nat} (hi : i < n) (hr : r < p) : i * p + r < n * p := by
+  have h1 : (i + 1) * p ≤ n * p := Nat.mul_le_mul_right p hi
+  have h2 : (i + 1) * p = i * p + p := Nat.succ_mul i p
+  omega
+
+theorem ravel_lt (s i : List Nat) (h : InRange s i) : ravel s i < prod s := by
+  induction s generalizing i with
+  | nil =>
+    cases i with
+    | nil => simp [ravel, prod]
+    | cons _ _ => simp [InRange] at h
+  | cons n s ih =>
+    cases i with
+    | nil => simp [InRange] at h
+    | cons i is =>
+      simp only [InRange] at h
+      simp only [ravel, prod_cons]
+      exact mul_add_lt h.1 (ih is h.2)
+
+theorem unravel_ravel (s i : List Nat) (h : InRange s i) : unravel s (ravel s i) = i := by
+  induction s generalizing i with
+  | nil =>
+    cases i with
+    | nil => simp [unravel]
+    | cons _ _ => simp [InRange] at h
+  | cons n s ih =>
+    cases i with
+    | nil => simp [InRange] at h
+    | cons i is =>
+      simp only [InRange] at h
+      have hr : ravel s is < prod s := ravel_lt s is h.2
+      have hp : 0 < prod s := by omega
+      simp only [ravel, unravel]
+      have hd : (i * prod s + ravel s is) / prod s = i := by
+        rw [Nat.add_comm, Nat.add_mul_div_right _ _ hp, Nat.div_eq_of_lt hr, Nat.zero_add]
+      have hm : (i * prod s + ravel s is) % prod s = ravel s is := by
+        rw [Nat.add_comm, Nat.add_mul_mod_self_right, Nat.mod_eq_of_lt hr]
+      rw [hd, hm, ih is h.2]
+
+theorem ravel_unravel (s : List Nat) (k : Nat) (h : k < prod s) : ravel s (unravel s k) = k := by
+  induction s generalizing k with
+  | nil =>
+    simp only [prod_nil] at h
+    simp only [ravel]
+    omega
+  | cons n s ih =>
+    simp only [prod_cons] at h
+    have hp : 0 < prod s := by
+      cases hps : prod s with
+      | zero => rw [hps, Nat.mul_zero] at h; omega
+      | succ _ => omega
+    simp only [unravel, ravel]
+    rw [ih _ (Nat.mod_lt _ hp), Nat.mul_comm]
+    exact Nat.div_add_mod k (prod s)
+
+theorem unravel_inRange (s : List Nat) (k : Nat) (h : k < prod s) : InRange s (unravel s k) := by
+  induction s generalizing k with
+  | nil => simp [unravel, InRange]
+  | cons n s ih =>
+    simp only [prod_cons] at h
+    have hp : 0 < prod s := by
+      cases hps : prod s with
+      | zero => rw [hps, Nat.mul_zero] at h; omega
+      | succ _ => omega
+    simp only [unravel, InRange]
+    refine ⟨?_, ih _ (Nat.mod_lt _ hp)⟩
+    apply Nat.div_lt_of_lt_mul
+    rw [Nat.mul_comm]; exact h
+
+theorem inRange_append (s1 s2 i1 i2 : List Nat) (h1 : InRange s1 i1) (h2 : InRange s2 i2) :
+    InRange (s1 ++ s2) (i1 ++ i2) := by
+  induction s1 generalizing i1 with
+  | nil =>
+    cases i1 with
+    | nil => simpa using h2
+    | cons _ _ => simp [InRange] at h1
+  | cons n s ih =>
+    cases i1 with
+    | nil => simp [InRange] at h1
+    | cons i is =>
+      simp only [InRange] at h1
+      simp only [List.cons_append, InRange]
+      exact ⟨h1.1, ih is h1.2⟩
+
+theorem prod_append (s1 s2 : List Nat) : prod (s1 ++ s2) = prod s1 * prod s2 := by
+  induction s1 with
+  | nil => simp [prod]
+  | cons n s ih => simp only [List.cons_append, prod_cons, ih, Nat.mul_assoc]
+
+theorem ravel_append (s1 s2 i1 i2 : List Nat) (h1 : InRange s1 i1) (h2 : InRange s2 i2) :
+    ravel (s1 ++ s2) (i1 ++ i2) = ravel s1 i1 * prod s2 + ravel s2 i2 := by
+  have _ := h2  -- not needed: the equation holds for any `i2`
+  induction s1 generalizing i1 with
+  | nil =>
+    cases i1 with
+    | nil => simp [ravel]
+    | cons _ _ => simp [InRange] at h1
+  | cons n s ih =>
+    cases i1 with
+    | nil => simp [InRange] at h1
+    | cons i is =>
+      simp only [InRange] at h1
+      simp only [List.cons_append, ravel]
+      rw [ih is h1.2, prod_append, Nat.add_mul, Nat.mul_assoc, Nat.add_assoc]
+
+/-! ### grouping a block of dimensions -/
+
+theorem inRange_singleton (n g : Nat) (h : g < n) : InRange [n] [g] := by
+  simp [InRange, h]
+
+/-- **the value equation of flatten**: after reshaping `pre ++ grp ++ post` into
+`pre ++ [prod grp] ++ post` (what `values.reshape(newshape)` does for a contiguous group), the
+element at grouped position `g` is the original element at the member coordinates `unravel grp g`,
+i.e. the `g`-th combination of member positions in row-major order of the listed dimensions. -/
+theorem group_get {α : Type} (a : NDArr α) (pre grp post : List Nat) (hshape : a.shape = pre ++ grp ++ post)
+    (i1 i2 : List Nat) (g : Nat) (h1 : InRange pre i1) (hg : g < prod grp) (h2 : InRange post i2) :
+    (a.reshape (pre ++ [prod grp] ++ post)).get (i1 ++ [g] ++ i2) = a.get (i1 ++ unravel grp g ++ i2) := by
+  have hu : InRange grp (unravel grp g) := unravel_inRange grp g hg
+  have hgs : InRange [prod grp] [g] := inRange_singleton _ _ hg
+  have hL : ravel (pre ++ [prod grp] ++ post) (i1 ++ [g] ++ i2)
+      = ravel (pre ++ grp ++ post) (i1 ++ unravel grp g ++ i2) := by
+    rw [ravel_append _ _ _ _ (inRange_append _ _ _ _ h1 hgs) h2,
+      ravel_append _ _ _ _ h1 hgs,
+      ravel_append _ _ _ _ (inRange_append _ _ _ _ h1 hu) h2,
+      ravel_append _ _ _ _ h1 hu, ravel_unravel grp g hg]
+    simp [ravel, prod]
+  show a.get (unravel a.shape (ravel (pre ++ [prod grp] ++ post) (i1 ++ [g] ++ i2))) = _
+  rw [hshape, hL,
+    unravel_ravel _ _ (inRange_append _ _ _ _ (inRange_append _ _ _ _ h1 hu) h2)]
+
+/-- more generally any reshape round trip of equal size is the identity -/
+theorem reshape_roundtrip_get {α : Type} (a : NDArr α) (s : List Nat) (hs : prod s = prod a.shape)
+    (i : List Nat) (hi : InRange a.shape i) :
+    ((a.reshape s).reshape a.shape).get i = a.get i := by
+  show a.get (unravel a.shape (ravel s (unravel s (ravel a.shape i)))) = a.get i
+  have hlt : ravel a.shape i < prod s := by rw [hs]; exact ravel_lt _ _ hi
+  rw [ravel_unravel s _ hlt, unravel_ravel _ _ hi]
+
+/-- **unflatten after flatten is the identity on the values**: reshaping back restores every
+element at its original index -/
+theorem ungroup_group_get {α : Type} (a : NDArr α) (pre grp post : List Nat) (hshape : a.shape = pre ++ grp ++ post)
+    (i : List Nat) (hi : InRange a.shape i) :
+    ((a.reshape (pre ++ [prod grp] ++ post)).reshape a.shape).get i = a.get i := by
+  apply reshape_roundtrip_get a _ _ i hi
+  rw [hshape]
+  simp only [prod_append, prod_cons, prod_nil, Nat.mul_one]
+
+/-! ### the grouped axis -/
+
+/-- the tuple labels of a grouped axis, derived from the members (what `MultiAxis.values` computes
+through `_flatten`: meshgrid 'ij' + ravel) -/
+def tupleLabels : List Axis0 → List (List Label)
+  | [] => [[]]
+  | m :: ms => m.labels.flatMap fun l => (tupleLabels ms).map (l :: ·)
+
+theorem tupleLabels_length (ms : List Axis0) : (tupleLabels ms).length = prod (ms.map (·.labels.length)) := by
+  induction ms with
+  | nil => rfl
+  | cons m ms ih =>
+    simp only [tupleLabels, List.map_cons, prod_cons]
+    rw [← ih]
+    generalize m.labels = L
+    induction L with
+    | nil => simp
+    | cons l L ihL =>
+      simp only [List.flatMap_cons, List.length_append, List.length_map, List.length_cons, ihL]
+      rw [Nat.succ_mul, Nat.add_comm]
+
+/-- indexing a block list: `q`-th block, `r`-th element of the block -/
+theorem flatMap_block_get (L : List Label) (T : List (List Label)) (q r : Nat)
+    (hq : q < L.length) (hr : r < T.length) :
+    (L.flatMap fun l => T.map (l :: ·))[q * T.length + r]? =
+      some (L.getD q Label.none :: T.getD r []) := by
+  induction L generalizing q with
+  | nil => simp at hq
+  | cons l L ih =>
+    cases q with
+    | zero =>
+      simp only [List.flatMap_cons, Nat.zero_mul, Nat.zero_add]
+      rw [List.getElem?_append_left (by simpa using hr)]
+      simp [List.getElem?_map, List.getElem?_eq_getElem hr]
+    | succ q =>
+      simp only [List.flatMap_cons]
+      rw [List.getElem?_append_right (by
+        simp only [List.length_map]; rw [Nat.succ_mul]; omega)]
+      have he : (q + 1) * T.length + r - (List.map (fun x => l :: x) T).length = q * T.length + r := by
+        simp only [List.length_map]; rw [Nat.succ_mul]; omega
+      rw [he, ih q (by simpa using hq)]
+      simp
+
+/-- the `g`-th tuple label is the combination of member labels at `unravel sizes g` (row-major) -/
+theorem tupleLabels_get (ms : List Axis0) (g : Nat) (hg : g < prod (ms.map (·.labels.length))) :
+    (tupleLabels ms)[g]? = some ((ms.zip (unravel (ms.map (·.labels.length)) g)).map
+        (fun (m, k) => m.labels.getD k Label.none)) := by
+  induction ms generalizing g with
+  | nil =>
+    simp only [List.map_nil, prod_nil] at hg
+    have : g = 0 := by omega
+    subst this
+    simp [tupleLabels, unravel]
+  | cons m ms ih =>
+    simp only [List.map_cons, prod_cons] at hg
+    have hlen := tupleLabels_length ms
+    have hp : 0 < prod (ms.map (·.labels.length)) := by
+      cases hps : prod (ms.map (·.labels.length)) with
+      | zero => rw [hps, Nat.mul_zero] at hg; omega
+      | succ _ => omega
+    have hq : g / prod (ms.map (·.labels.length)) < m.labels.length := by
+      apply Nat.div_lt_of_lt_mul; rw [Nat.mul_comm]; exact hg
+    have hr : g % prod (ms.map (·.labels.length)) < prod (ms.map (·.labels.length)) := Nat.mod_lt _ hp
+    have hsplit : g = g / (tupleLabels ms).length * (tupleLabels ms).length
+        + g % (tupleLabels ms).length := by
+      rw [Nat.mul_comm]; exact (Nat.div_add_mod g _).symm
+    have hblock := flatMap_block_get m.labels (tupleLabels ms) (g / (tupleLabels ms).length)
+      (g % (tupleLabels ms).length) (by rw [hlen]; exact hq) (by rw [hlen]; exact hr)
+    rw [← hsplit] at hblock
+    simp only [tupleLabels, List.map_cons, unravel, List.zip_cons_cons]
+    rw [hblock, hlen]
+    have ih' := ih _ hr
+    congr 2
+    rw [List.getD_eq_getElem?_getD, ih']
+    rfl
+
+theorem foldl_mul_eq (l : List Nat) (a : Nat) : l.foldl (· * ·) a = a * prod l := by
+  induction l generalizing a with
+  | nil => simp [prod]
+  | cons x l ih => simp only [List.foldl_cons, ih, prod_cons, Nat.mul_assoc]
+
+/-- the grouped axis is named by the comma-joined member names, in the listed order, and its size
+is the product of the member sizes.  (`ms ≠ []`: the model gives the degenerate `MultiAxis()` of
+zero members size `0` (it has no members, hence counts as a plain axis with no labels), while the
+empty product is `1`.) -/
+theorem multiAxis_name_size (ms : List Axis) (hne : ms ≠ []) (hplain : ∀ m ∈ ms, m.members = []) :
+    (multiAxis ms).name = ",".intercalate (ms.map (·.name)) ∧
+    (multiAxis ms).size = prod (ms.map (·.size)) := by
+  refine ⟨rfl, ?_⟩
+  have hE : (ms.map Axis.toAxis0).isEmpty = false := by
+    cases ms with
+    | nil => exact absurd rfl hne
+    | cons _ _ => rfl
+  have hsz : ms.map (·.size) = (ms.map Axis.toAxis0).map (·.labels.length) := by
+    rw [List.map_map]
+    apply List.map_congr_left
+    intro m hm
+    simp [Axis.size, hplain m hm, Axis.toAxis0]
+  rw [hsz]
+  show (if (ms.map Axis.toAxis0).isEmpty then _ else _) = _
+  rw [hE, foldl_mul_eq, Nat.one_mul]
+  rfl
+
+/-- non-vacuity -/
+example : unravel [2, 3] 4 = [1, 1] ∧ ravel [2, 3] [1, 1] = 4 ∧ InRange [2, 3] [1, 1] := by decide
+
 end DimModel
